@@ -585,6 +585,9 @@ class Env:
 TOL_NEAR = 1e-5      # the independent evaluator only flags values at least this far off
 
 
+ABS_BAND = 1e-6      # the library's isclose() also has an absolute tolerance (1e-8)
+
+
 def _close(a, b, tol):
     if isinstance(a, str) or isinstance(b, str):
         return a == b
@@ -594,7 +597,14 @@ def _close(a, b, tol):
 
 
 def in_options(node, value, tol=1e-9):
-    return any(_close(value, o, tol) for o in node["options"] if o is not None)
+    """tol <= 1e-9: clearly equal.  Larger tol: inside the tolerance band, which also has an
+    absolute part (tiny values next to an option 0 after a unit conversion)."""
+    def near(a, b):
+        if _close(a, b, tol):
+            return True
+        return tol > 1e-9 and not isinstance(a, (str, list)) and not isinstance(b, (str, list)) \
+            and abs(a - b) <= ABS_BAND
+    return any(near(value, o) for o in node["options"] if o is not None)
 
 
 def cond_literals(e):
@@ -636,7 +646,7 @@ def eval_condition(env, node, value, margin=0.0):
                 if op in ("==", "<=", ">="):
                     return True
                 return None
-            near = abs(lhs - rhs) <= margin * scale
+            near = abs(lhs - rhs) <= margin * scale or (margin > 0 and abs(lhs - rhs) <= ABS_BAND)
             if op in ("==", "!="):
                 if near and lhs != rhs:
                     return None
@@ -873,8 +883,13 @@ def run_statements(env, stmts, files):
             env.function_def(st)
         elif k == "cmp_expr":
             env.compare_def(st)
-        elif k in ("tags", "description", "blank"):
-            pass          # annotations and blank lines: no effect on values or constraints
+        elif k in ("tags", "description"):
+            # annotations: no effect on values or constraints, but like every property line
+            # they need a node to belong to
+            if not env.nodes:
+                raise Unspecified("annotation without a preceding node")
+        elif k == "blank":
+            pass
         elif k == "raw":
             if st.get("aborts"):
                 raise Abort(st["aborts"], st.get("prop", "C13"))
